@@ -141,6 +141,14 @@ func VerifyFunc(ld *Loader, specs *Specs, fk string, safetyOnly bool) (res *Func
 									found = ex.posString(in.Pos())
 								}
 							}
+							if st, ok := in.(*ssa.Store); ok && kindWord == "write" {
+								// a store into any field of an object of the named struct type
+								if fa, ok := st.Addr.(*ssa.FieldAddr); ok && found == "" {
+									if pt, ok := fa.X.Type().Underlying().(*types.Pointer); ok && typeName(pt.Elem()) == want {
+										found = ex.posString(in.Pos())
+									}
+								}
+							}
 							if ci, ok := in.(ssa.CallInstruction); ok && kindWord == "call" {
 								if n := calleeName(ci.Common()); (n == want || strings.HasSuffix(n, "."+want) || strings.HasSuffix(n, ")."+want)) && found == "" {
 									found = ex.posString(in.Pos())
